@@ -10,7 +10,7 @@ Per run:
   (2) the conclusions of the conservation theorems evaluated on the Q instance for every case;
   (3) the property predicates on the implementation itself (independent index arithmetic in harness/impl/c10_impl.py):
       totals conserved, the axis labelled L carries population L's marginal spectrum, commutation with project
-      (on the axes that are not merged / dropped) and with fold, on unmasked data.
+      (on the axes that are not merged / dropped) and with fold on unmasked data: data, mask, labels AND folded flag.
 """
 import itertools, json, math
 from fractions import Fraction
@@ -233,7 +233,8 @@ def judge_predicates(ctx, c, r):
     pr = P.get('project')
     if pr is not None:
         ctx.count('pred:project')
-        if not pr['shape_ok'] or not pr['err'] <= TOLF * max(pr['scale'], 1.0) or not pr['mask_equal'] or pr['ids'][0] != pr['ids'][1]:
+        if (not pr['shape_ok'] or not pr['err'] <= TOLF * max(pr['scale'], 1.0) or not pr['mask_equal'] or pr['ids'][0] != pr['ids'][1]
+                or pr['folded'][0] != pr['folded'][1]):
             bad.append(('does not commute with projection to %r on unmasked data: %r' % (c['proj'], pr), 'project'))
     for mc in (0, 1):
         fr = P.get('fold_mc%d' % mc)
@@ -242,8 +243,9 @@ def judge_predicates(ctx, c, r):
         ctx.count('pred:fold')
         if not fr['shape_ok'] or not fr['err'] <= TOLF * max(fr['scale'], 1.0) or not fr['mask_equal'] or fr['ids'][0] != fr['ids'][1]:
             bad.append(('does not commute with folding on unmasked data (mask_corners=%d): %r' % (mc, fr), 'fold'))
-        elif not fr['flag_after_op_on_folded']:
-            ctx.count('note:%s of a folded spectrum returns data and mask of the folded result but folded=False' % c['op'])
+        elif fr['folded'][0] is not True or fr['folded'][1] is not True:
+            bad.append(('does not commute with folding (mask_corners=%d): %s of the folded spectrum has folded=%r, folding the %s of the '
+                        'unfolded spectrum has folded=%r (data and mask agree)' % (mc, c['op'], fr['folded'][0], c['op'], fr['folded'][1]), 'fold-flag'))
     return bad
 
 def run(ctx):
